@@ -179,6 +179,15 @@ def expand(p, alphabet):
             if mode != 'copy':
                 q.links.append(v)
             out.append(q)
+    if 'exepch' in alphabet:
+        # one step: a precompiled header and the executable compiled through it
+        q = new('exepch')
+        q.files['p%d.h' % i] = '#define P%d 1\n' % i
+        f = repr(src(q, i, header=False))
+        q.lines.append("p%d = precompiled_header(file='p%d.h')" % (i, i))
+        q.lines.append("x%d = executable('x%d', files=[%s], pch=p%d)" % (i, i, f, i))
+        q.values.append(Value('x%d' % i, EXE, 'x%d' % i, i))
+        out.append(q)
     if 'vshlib' in alphabet:
         q = new('vshlib')
         f = repr(src(q, i, header=False))
@@ -234,7 +243,7 @@ def expand(p, alphabet):
     return out
 
 
-FULL = ['obj', 'exe', 'slib', 'shlib', 'vshlib', 'step1', 'step2', 'stepao', 'step2ao', 'stepcmd', 'copy', 'alias',
+FULL = ['obj', 'exe', 'slib', 'shlib', 'vshlib', 'exepch', 'step1', 'step2', 'stepao', 'step2ao', 'stepcmd', 'copy', 'alias',
         'command', 'test', 'testarg', 'default', 'install']
 
 
